@@ -454,9 +454,15 @@ func propC15BinaryOp(c *Ctx, tb *tabber, otypes []types.Type) {
 						"both constant "+strings.Join(a.consts, ","),
 						fmt.Sprintf("%s %s %s returns %v but the converse %s %s %s returns %v", tstr(T), tn, tstr(R), a.consts, tstr(R), converseTok[tn], tstr(T), b.consts))
 				case !a.allConst && !b.allConst && len(a.domains) > 0 && len(b.domains) > 0:
-					c.Check(rc, key, p, strings.Join(a.domains, ",") == strings.Join(b.domains, ","),
+					// a cell that compares values may also answer with a constant on some
+					// path (under a condition on the operand values): the converse cell
+					// must then do the same, with the same constants
+					ac, bcs := append([]string(nil), a.consts...), append([]string(nil), b.consts...)
+					sort.Strings(ac)
+					sort.Strings(bcs)
+					c.Check(rc, key, p, strings.Join(a.domains, ",") == strings.Join(b.domains, ",") && strings.Join(ac, ",") == strings.Join(bcs, ","),
 						"same domain "+strings.Join(a.domains, ","),
-						fmt.Sprintf("%s %s %s compares in %v but the converse compares in %v", tstr(T), tn, tstr(R), a.domains, b.domains))
+						fmt.Sprintf("%s %s %s compares in %v (constant answers on some paths: %v) but the converse compares in %v (constant answers: %v): a<b and b>a differ for the operand values that take the constant path", tstr(T), tn, tstr(R), a.domains, a.consts, b.domains, b.consts))
 				case a.allConst != b.allConst:
 					c.Bad(rc, key, p, fmt.Sprintf("%s %s %s and its converse disagree in kind: one returns a constant, the other compares values", tstr(T), tn, tstr(R)))
 				}
